@@ -21,6 +21,7 @@ CORRESPONDS = ('Model/Use.lean (getTask, make, useRunCall, newFactory, closeDeps
                'UseRun, valjean.cosette.run.RunTaskFactory, close_dependency_graph, check_unique_task_names')
 TRUSTED = ['harness/props/c15.py (generator, behaviour probes, oracle)', 'vjdriver (compiled Model/Use.lean)']
 ASSUMPTIONS = ['det_hash (sha256 of the JSON of its arguments) is injective on the generated arguments',
+               'task objects and functions are compared by identity (two task objects with the same name are different tasks)',
                'functions are compared by identity; functools.partial objects are not generated (Use rejects them: no __name__)',
                'Use._CACHE is cleared between cases (it is process-global)']
 
@@ -296,11 +297,15 @@ def run_impl(case, run):
             except Exception as exc:  # pylint: disable=broad-except
                 out = f'{type(exc).__name__}: {exc}'[:200]
             # task objects created by an op that ended with an exception are still in the caches
+            def cached_tasks(cache):
+                for val in list(cache.values()):
+                    for item in (val if isinstance(val, list) else [val]):
+                        yield item[0] if isinstance(item, tuple) else item
             for fac in factories:
-                for val in list(fac.cache.values()):
-                    known(val[0] if isinstance(val, tuple) else val)
-            for val in list(Use._CACHE.values()):
-                known(val[0] if isinstance(val, tuple) else val)
+                for tsk in cached_tasks(fac.cache):
+                    known(tsk)
+            for tsk in cached_tasks(Use._CACHE):
+                known(tsk)
             results.append(res)
             outs.append(out)
         # behaviour of every task object
@@ -403,7 +408,7 @@ def compare(case, impl, model):
     mtasks = []
     for tid, beh in model['tasks']:
         if isinstance(beh, dict) and 'run' in beh:
-            beh = {'run': True, 'stdout': expected_stdout(beh), 'deps': sorted(beh['deps']), 'soft': sorted(beh['soft'])}
+            beh = {'run': True, 'stdout': expected_stdout(beh), 'deps': sorted(set(beh['deps'])), 'soft': sorted(set(beh['soft']))}
         elif isinstance(beh, dict) and 'use' in beh:
             beh = dict(beh, deps=sorted(beh['deps']), soft=sorted(beh['soft']),
                        kwargs=sorted(beh['kwargs']))
@@ -464,11 +469,8 @@ def oracle(case, impl, run):
             facs[nfac] = ('F', nfac) + facs[op[1]][2:]
             nfac += 1
         elif op[0] == 'use' and out != 'skip':
-            # injected tasks count by name: injection reads env[task.name], and two tasks with the same name cannot
-            # coexist in a job (check_unique_task_names) -- see DESIGN.md, C15 interpretation
-            reqs[i] = ('use', op[1][0], tuple((impl['names'][rid(t)], k) for t, k in op[2]),
-                       tuple(sorted((kw, impl['names'][rid(t)], k) for kw, t, k in op[3])), op[4], op[5])
-            use_ids[i] = (tuple((rid(t), k) for t, k in op[2]), tuple(sorted((kw, rid(t), k) for kw, t, k in op[3])))
+            reqs[i] = ('use', op[1][0], tuple((rid(t), k) for t, k in op[2]),
+                       tuple(sorted((kw, rid(t), k) for kw, t, k in op[3])), op[4], op[5])
         elif op[0] in ('make', 'userun') and out != 'skip':
             o = 2 if op[0] == 'make' else 3
             defaults = dict(facs[op[1]][3])
@@ -484,7 +486,7 @@ def oracle(case, impl, run):
                 behs = dict((tid, b) for tid, b in impl['tasks'])
                 prev = behs[out['ok']].get('deps', [None]) if isinstance(behs[out['ok']], dict) else [None]
                 if len(prev) == 1 and prev[0] is not None:
-                    reqs[i] = ('use', posts[-1], ((impl['names'][prev[0]], 'result'),), (), 'hard', False)
+                    reqs[i] = ('use', posts[-1], ((prev[0], 'result'),), (), 'hard', False)
     # one-to-one: same object => same request; same request (both answered) => same object, no error
     by_task = {}
     by_req = {}
@@ -497,7 +499,7 @@ def oracle(case, impl, run):
                               f'ops #{by_task[tid][0]} and #{i} got the same task {tid} ({impl["names"][tid]!r}) for different '
                               f'requests {by_task[tid][1]} / {req}'[:500]))
             by_task.setdefault(tid, (i, req))
-        strict = (req, use_ids.get(i))     # identical request: the very same injected task objects
+        strict = req
         if strict in by_req:
             nontriv = True
             run.count('repeated_request')
@@ -517,18 +519,14 @@ def oracle(case, impl, run):
             fails.append(('task_runs_its_own_request', f'op#{i}: task could not be executed: {b}'[:300]))
             continue
         if req[0] == 'use':
-            exp_args = [[n, k] for n, k in reversed(req[2])]
-            exp_kw = sorted([kw, n, k] for kw, n, k in req[3])
+            exp_args = [[names[t], k] for t, k in reversed(req[2])]
+            exp_kw = sorted([kw, names[t], k] for kw, t, k in req[3])
+            inj = sorted({t for t, _ in req[2]} | {t for _, t, _ in req[3]})
             got = dict(b, args=[[a[0], a[1]] for a in b['args']])
-            exp = {'use': req[1], 'args': exp_args, 'kwargs': exp_kw, 'serialize': req[5]}
-            if {k: got.get(k) for k in exp} != exp:
+            exp = {'use': req[1], 'args': exp_args, 'kwargs': exp_kw, 'deps': inj if req[4] == 'hard' else [],
+                   'soft': inj if req[4] == 'soft' else [], 'serialize': req[5]}
+            if got != exp:
                 fails.append(('task_runs_its_own_request', f'op#{i}: task does {got}, request was {exp}'[:500]))
-            # dependencies: tasks with the names of the injected tasks, hard or soft as requested
-            inj_names = sorted({n for n, _ in req[2]} | {n for _, n, _ in req[3]})
-            dep_names = sorted({names[t] for t in got['deps']})
-            soft_names = sorted({names[t] for t in got['soft']})
-            if (dep_names, soft_names) != ((inj_names, []) if req[4] == 'hard' else ([], inj_names)):
-                fails.append(('task_runs_its_own_request', f'op#{i}: dependencies {dep_names}/{soft_names}, injected {inj_names} ({req[4]})'))
         elif req[0] == 'make':
             kw = dict(req[5])
             stdout = ' '.join([dict(req[6]).get('VJ', ''), kw.get('food', ''), kw.get('side', '')] + list(req[4])).strip()
